@@ -109,6 +109,16 @@ def scenario(budget, payload_len):
 
 def main(argv):
     tier = argv[argv.index('--tier') + 1] if '--tier' in argv else 'quick'
+    if '--replay' in argv:
+        with open(argv[argv.index('--replay') + 1]) as f:
+            one = json.load(f).get('failure') or {}
+        c = one.get('case') or {}
+        print('replay of bounded check %s: %s' % (one.get('check'), json.dumps(c)))
+        probs = scenario(int(c.get('octets_per_send', 2)), int(c.get('bundle_octets', 40)))
+        for p in probs:
+            print('  observed: %s' % p)
+        print('REPRODUCED' if probs else 'NOT-REPRODUCED')
+        return 1 if probs else 0
     budgets = (1, 2, 5) if tier == 'quick' else (1, 2, 3, 5, 8, 11)
     sizes = (40,) if tier == 'quick' else (1, 40, 90)
     fails, n = [], 0
